@@ -30,7 +30,7 @@ fn gh_inc(outlen: usize, key: Option<&[u8]>, parts: &[&[u8]]) -> Vec<u8> {
 
 pub fn generate(seed: u64, tier: Tier) -> Vec<Line> {
     let mut v: Vec<Line> = vec![];
-    let maxlen = tier.pick(600usize, 1100);
+    let maxlen = tier.pick(800usize, 1100);
     let fills = tier.pick(2usize, 8);
     // --- BLAKE2b one-shot + incremental, SHA-512, HMAC
     for len in 0..=maxlen {
@@ -81,7 +81,7 @@ pub fn generate(seed: u64, tier: Tier) -> Vec<Line> {
         }
     }
     // --- Curve25519 / Ed25519 / box family
-    let n = tier.pick(300usize, 3000);
+    let n = tier.pick(1000usize, 6000);
     for i in 0..n {
         let mut f = Fill::new(seed, &format!("C18:ec:{i}"));
         let (sa, sb): ([u8; 32], [u8; 32]) = (f.arr(), f.arr());
